@@ -43,6 +43,9 @@ type PQ struct {
 	Ops      []Op
 	NoRecord bool
 	Prop     string // property violations of the FIFO oracle are reported under
+	BufMonitor bool // watch the amount buffered at automatic flushes
+	minBuf, maxChunk int
+	overBudget bool
 	armed     bool // a one-operation fault plan is active
 	firedSeen int
 	FaultRuns bool // the generator arms write faults before some Flush/Next calls
@@ -163,9 +166,44 @@ func (p *PQ) Apply(op Op) bool {
 	if !p.NoRecord {
 		p.Ops = append(p.Ops, op)
 	}
+	// write buffer monitor (C12 sustained traffic): bytes buffered when an
+	// automatic flush happens must not grow with the traffic that passed through
+	var bufBefore, flushedBefore int
+	monitor := p.BufMonitor && (op.K == "write" || op.K == "next") && p.Q != nil
+	if monitor {
+		flushedBefore = p.cbFlushed
+		for _, sz := range p.Sizes[min(p.cbFlushed, len(p.Sizes)):] {
+			bufBefore += sz + pqEventHeader
+		}
+		if p.curBytes > 0 {
+			bufBefore += p.curBytes + pqEventHeader
+		}
+		if op.K == "write" && op.A > p.maxChunk {
+			p.maxChunk = op.A
+		}
+	}
+	wasOver := p.overBudget
 	ok := p.apply(op)
 	if !ok && !p.NoRecord {
 		p.Ops = p.Ops[:len(p.Ops)-1]
+	}
+	if monitor && ok && !p.E.Failed() {
+		switch {
+		case p.full:
+			p.overBudget = true
+		case p.cbFlushed > flushedBefore:
+			p.overBudget = false
+			if !wasOver {
+				slack := p.Cfg.PageSize + p.maxChunk + 16
+				if p.minBuf == 0 || bufBefore < p.minBuf {
+					p.minBuf = bufBefore
+				}
+				p.E.Probe("auto_flush_observed")
+				if bufBefore > p.minBuf+slack {
+					p.fail("buffer-drift", "an automatic flush happened with %d bytes of events in the write buffer; earlier in this run the buffer was flushed at %d bytes already (difference above one page + the biggest Write + 16 = %d): the write buffer grows with the traffic that passed through (%d events so far)", bufBefore, p.minBuf, slack, p.completed())
+				}
+			}
+		}
 	}
 	if ok && p.armed && op.K != "faultarm" {
 		// the fault plan covers exactly one operation
